@@ -97,7 +97,10 @@ Valids == <<
   Nest(<<"volumes", "v">>, M1("external", B(TRUE))),
   Nest(<<"secrets", "s">>, M2("external", B(TRUE), "file", Tagged(Null, "reset"))),
   Nest(<<"secrets", "s">>, M1("driver", S("custom"))),
-  Nest(<<"services", "b">>, M1("depends_on", M1("off", OptDep)))
+  Nest(<<"services", "b">>, M1("depends_on", M1("off", OptDep))),
+  \* every service names its networks, one of them the implicit `default`, which no file declares: still declared implicitly
+  M1("services", M([x \in {"a", "b", "c", "off"} |-> M1("networks", IF x = "a" THEN M1("default", Null) ELSE M1("n", Null))])),
+  M1("services", M([x \in {"a", "b", "c", "off"} |-> IF x = "b" THEN M1("networks", M2("default", M1("aliases", Sq1(S("al"))), "n", Null)) ELSE IF x = "c" THEN M2("network_mode", S("none"), "networks", Tagged(Null, "reset")) ELSE M1("networks", M1("n", Null))]))
 >>
 \* the paired settings next to every partial shape of the deploy section: nothing to disagree with, so the model stays consistent
 PairAttrs == {<<"mem_reservation", S("1g")>>, <<"mem_limit", S("1g")>>, <<"cpus", S("1")>>, <<"pids_limit", I(5)>>, <<"scale", I(2)>>}
